@@ -16,7 +16,7 @@ JOBS = []
 # carquet_read_next_page, one job per physical type (value size is a constant per job, except FLBA)
 for t, tn in TYPES:
     j = dict(name='c02_next_page_%s' % tn, entry='h_next_page', enforce='carquet_read_next_page', replace=['load_next_page'],
-             loop_contracts=False, wip=True, est_s=30, timeout=300, defines=['CQV_TYPE=%d' % t],
+             min_loop_obligations=2, wip=True, est_s=30, timeout=300, defines=['CQV_TYPE=%d' % t],
              note='ok on the unchanged tree (2165 obligations). On deliberately broken copies cbmc finds the failing obligation, '
                   'but the driver reports undecided (rc=6): the json trace of symbolic-size malloc objects / havoc_slice runs out '
                   'of memory, so no VIOLATION line can be shown -> left wip; the c02_next_page_small_* twins are the validated ones', **NP)
@@ -31,11 +31,11 @@ for t, tn in TYPES:
 # (json traces of symbolic-size objects exhaust memory); used for the break-the-code validation
 for t, tn in [(1, 'int32'), (2, 'int64')]:
     JOBS.append(dict(name='c02_next_page_small_%s' % tn, entry='h_next_page', enforce='carquet_read_next_page', replace=['load_next_page'],
-                     loop_contracts=False, wip=False, est_s=20, timeout=300, defines=['CQV_TYPE=%d' % t, 'CQV_SMALL=1'],
+                     min_loop_obligations=2, wip=False, est_s=20, timeout=300, defines=['CQV_TYPE=%d' % t, 'CQV_SMALL=1'],
                      level='bounded', bound='page_num_values <= 8, max_values <= 8', **NP))
 # the C02 obligation the code violates (dense delivery of nullable values across calls), unbounded form
 JOBS.append(dict(name='c02_next_page_dense_int32', entry='h_next_page', enforce='carquet_read_next_page', replace=['load_next_page'],
-                 loop_contracts=False, wip=True, est_s=30, timeout=300, defines=['CQV_TYPE=1', 'CQV_CHECK_DENSE=1', 'CQV_SMALL=1'],
+                 min_loop_obligations=2, wip=True, est_s=30, timeout=300, defines=['CQV_TYPE=1', 'CQV_SMALL=1'],
                  level='bounded', bound='page_num_values <= 8, max_values <= 8 (keeps the json counterexample small)',
                  replayer=dict(kind='direct', harness='replay/direct/colreader_next_page_dense.c', sources=ALL_SRC,
                                vars={'pnv': 'cex_pnv', 'start': 'cex_start', 'maxv': 'cex_maxv', 'j': 'cex_j', 'defj': 'cex_defj', 'maxdef': 'cex_maxdef'}),
@@ -60,3 +60,14 @@ for t, tn in [(1, 'int32'), (2, 'int64'), (0, 'boolean'), (6, 'byte_array')]:
                      replace=['carquet_column_read_batch'], min_loop_obligations=1, wip=True, est_s=60, timeout=300,
                      note='never run: depends on the read_batch contract, which is not proved yet',
                      defines=['CQV_TYPE=%d' % t], **CR))
+
+# batch reader: null bitmap, projection index, same rows in every column; C19 clone with failing allocations
+BR = dict(CR)
+BR['overlays'] = ['contracts/next_page.ovl', 'contracts/column_reader.ovl', 'contracts/batch_reader.ovl']
+BR['harness'] = 'harness/C02/batch.c'
+BR['trusted'] = CR['trusted'] + ['stubs/colreader_stubs.c: arena init/calloc/destroy as contracts',
+                                  'batch harness: row group already open, flat schema, column reader type/max_def equal to the schema (what carquet_reader_get_column sets)']
+JOBS.append(dict(name='c02_batch_next_int32', entry='h_batch_next', replace=['carquet_column_read_batch'],
+                 functions=['carquet_batch_reader_next', 'carquet_row_batch_free'], unwind=4, min_loop_obligations=2,
+                 level='bounded', bound='1..2 projected of 1..3 INT32 columns, row group open; rows unbounded',
+                 wip=True, est_s=120, timeout=600, defines=['CQV_TYPE=1'], c19=True, **BR))
